@@ -6,18 +6,47 @@ use serde_json::{json, Map, Value};
 
 pub const PRINTABLE: usize = 4;
 
-/// the document a client must read back: identifiers added to the tracked objects that carried none
-fn expected(d: &Map<String, Value>) -> Map<String, Value> {
-    let mut e = d.clone();
-    e.insert("_id".to_string(), Value::from("√"));
-    for key in ["meta♭", "more♭", "items♭"] {
-        if let Some(Value::Object(o)) = e.get_mut(key) {
-            if !o.contains_key("_id") {
-                o.insert("_id".to_string(), Value::from(digest_string(&format!("√{}", key))));
+/// Compares what was read with what was submitted: equal except that every tracked object which carried no
+/// identifier got one (a string); which identifier is not prescribed by the property.
+fn same_doc(read: &Value, submitted: &Value, tracked: bool) -> bool {
+    match (read, submitted) {
+        (Value::Object(r), Value::Object(s)) => {
+            for (k, v) in s {
+                match r.get(k) {
+                    Some(rv) => {
+                        if !same_doc(rv, v, k.ends_with('♭')) {
+                            return false;
+                        }
+                    }
+                    None => return false,
+                }
             }
+            for (k, v) in r {
+                if !s.contains_key(k) {
+                    // only an added identifier on a tracked object is allowed
+                    if !(tracked && k == "_id" && v.is_string()) {
+                        return false;
+                    }
+                }
+            }
+            if tracked && !r.contains_key("_id") {
+                return false;
+            }
+            true
         }
+        (Value::Array(r), Value::Array(s)) => r.len() == s.len() && r.iter().zip(s.iter()).all(|(a, b)| same_doc(a, b, tracked)),
+        _ => read == submitted,
     }
-    e
+}
+
+fn reads_back(r: &Map<String, Value>, d: &Map<String, Value>) -> bool {
+    let _ = digest_string("");
+    let ok = same_doc(&Value::from(r.clone()), &Value::from(d.clone()), true);
+    if !ok {
+        sym::debug_str("read     ", &serde_json::to_string(r).unwrap());
+        sym::debug_str("submitted", &serde_json::to_string(d).unwrap());
+    }
+    ok
 }
 
 fn elems(ids: &[&str]) -> Value {
@@ -77,6 +106,16 @@ fn doc(variant: i64, k: usize) -> Map<String, Value> {
                 }
             }
         }
+        3 => {
+            let sub = |x: String| json!({"bin": x});
+            let items = match sym::choose(4) {
+                0 => json!([{"_id": "a", "sub♭": sub("p".to_string())}, {"_id": "b"}]),
+                1 => json!([{"_id": "a", "sub♭": sub("p".to_string())}, {"_id": "b", "sub♭": sub("p".to_string())}]),
+                2 => json!([{"_id": "a", "sub♭": sub(sym::string(LOWER, 1, 1))}, {"_id": "b", "sub♭": sub("q".to_string())}]),
+                _ => json!([{"_id": "b", "sub♭": sub("q".to_string())}, {"_id": "a"}]),
+            };
+            m.insert("items♭".to_string(), items);
+        }
         _ => {
             m.insert("items♭".to_string(), elems(&["a"]));
             match sym::choose(6) {
@@ -119,7 +158,7 @@ pub fn update_read() {
     sym::observe_str(&serde_json::to_string(&d).unwrap());
     a.m.update(d.clone()).expect("update");
     let r = a.m.read(None).expect("read");
-    assert!(r == expected(&d), "read differs from the submitted document");
+    assert!(reads_back(&r, &d), "read differs from the submitted document");
     // submitting the same document again changes nothing
     let st = a.m.stage().expect("stage");
     a.m.update(d.clone()).expect("update (again)");
@@ -150,24 +189,28 @@ pub fn array_chain() {
     let a = Rep::new();
     let mut last = Map::new();
     for _ in 0..n {
-        let o = ORDERS[sym::choose(k)];
+        let c = sym::choose(k + 1);
+        let absent = c == k;
+        let o = if absent { ORDERS[0] } else { ORDERS[c] };
         let mut d = Map::new();
-        d.insert("items♭".to_string(), elems(o));
+        if !absent {
+            d.insert("items♭".to_string(), elems(o));
+        }
         // elements that are not in the array stay alive in a second array (a removed element must not be
         // hidden from the first one merely because its object was deleted)
         let rest: Vec<&str> = ["a", "b", "c", "d"].iter().filter(|x| !o.contains(x)).cloned().collect();
         d.insert("more♭".to_string(), elems(&rest));
         a.m.update(d.clone()).expect("update");
         let r = a.m.read(None).expect("read");
-        assert!(r == expected(&d), "stored array version does not reconstruct to the submitted array");
+        assert!(reads_back(&r, &d), "stored array version does not reconstruct to the submitted array");
         if commit_each {
             a.m.commit(None).expect("commit");
-            assert!(a.m.read(None).expect("read") == expected(&d), "commit changed the reconstructed array");
+            assert!(reads_back(&a.m.read(None).expect("read"), &d), "commit changed the reconstructed array");
         }
         last = d;
     }
     a.m.commit(None).expect("commit");
     let re = a.reopen();
-    assert!(re.read(None).expect("read after reopen") == expected(&last), "array does not reconstruct after reopen");
+    assert!(reads_back(&re.read(None).expect("read after reopen"), &last), "array does not reconstruct after reopen");
     sym::reach(1);
 }
